@@ -26,10 +26,13 @@ type Dep struct {
 }
 
 type Mod struct {
-	ID   string `json:"id"`  // slash-separated path below the root, without extension
-	Ext  string `json:"ext"` // ".risor" | ".rsr"
-	GV   int    `json:"gv"`  // initial value of the module's global gv
-	Deps []Dep  `json:"deps"`
+	// NoFuncs: never imported with a function-binding from-import (it has sub-modules named like its own
+	// functions, and `from m import f` names the sub-module)
+	NoFuncs bool   `json:"no_funcs,omitempty"`
+	ID      string `json:"id"`  // slash-separated path below the root, without extension
+	Ext     string `json:"ext"` // ".risor" | ".rsr"
+	GV      int    `json:"gv"`  // initial value of the module's global gv
+	Deps    []Dep  `json:"deps"`
 }
 
 type Tree struct {
@@ -78,6 +81,9 @@ var funcsBound = []string{"inc", "push", "getcnt", "getgv", "setgv", "lst"}
 // `from`; imported names are identifiers with optional `as`, either comma-separated on one line or
 // grouped in parentheses (newlines and one trailing comma allowed).
 func spell(r *mon.Rand, m Mod, wantFuncs bool, alias string, plainOK bool) Dep {
+	if m.NoFuncs {
+		wantFuncs = false
+	}
 	c := m.comps()
 	dirs, leaf := c[:len(c)-1], c[len(c)-1]
 	ascii := m.ascii()
@@ -255,7 +261,7 @@ func genTree(base uint64, k, nTrees int) *Tree {
 		return cycleTree(k - nTrees)
 	}
 	r := mon.NewRand(base).Split("tree").SplitN(k)
-	shape := mon.Pick(r, []string{"single", "chain", "diamond", "dag", "dag", "samename", "samename", "unicode", "repeat", "lazycycle", "twins"})
+	shape := mon.Pick(r, []string{"single", "chain", "diamond", "dag", "dag", "samename", "samename", "unicode", "repeat", "lazycycle", "twins", "membername"})
 	var ids []string
 	pickN := func(pool []string, n int) {
 		p := r.Perm(len(pool))
@@ -325,6 +331,26 @@ func genTree(base uint64, k, nTrees int) *Tree {
 				}
 			}
 		}
+	case "membername":
+		// sub-modules whose names equal a function of their parent module (names the main script does not
+		// use itself): `from ma import inc` names the module ma/inc, never ma's own member
+		ids = []string{"ma", "ma/inc", "ma/push"}
+		if r.Bool() {
+			ids = append(ids, "ma/getcnt", "mb")
+		}
+		p := r.Perm(len(ids))
+		shuffled := make([]string, len(ids))
+		for i, j := range p {
+			shuffled[i] = ids[j]
+		}
+		ids = shuffled
+		for i := 0; i < len(ids); i++ {
+			for j := i + 1; j < len(ids); j++ {
+				if r.Chance(1, 3) {
+					edges = append(edges, edge{i, j})
+				}
+			}
+		}
 	case "twins":
 		// byte-identical files under different names (no edges: an import statement would tell them apart)
 		pickN(append(append([]string{}, topNames...), nestedNames...), r.Range(2, 4))
@@ -349,7 +375,7 @@ func genTree(base uint64, k, nTrees int) *Tree {
 		if t.Twin {
 			gv = 100
 		}
-		t.Mods = append(t.Mods, Mod{ID: id, Ext: ext, GV: gv})
+		t.Mods = append(t.Mods, Mod{ID: id, Ext: ext, GV: gv, NoFuncs: shape == "membername" && id == "ma"})
 	}
 	for n, e := range edges {
 		target := t.Mods[e.to]
@@ -364,6 +390,11 @@ func genTree(base uint64, k, nTrees int) *Tree {
 		}
 		if wantFuncs {
 			plainOK = false // the module defines inc/push/... itself
+		}
+		for _, fnm := range append([]string{"cnt", "gv"}, funcsBound...) {
+			if target.leaf() == fnm {
+				plainOK = false // the plain spelling would bind a name every module defines itself
+			}
 		}
 		d := spell(r, target, wantFuncs, alias, plainOK)
 		d.Target = e.to
